@@ -13,6 +13,9 @@ Parts
   datetime-naive   boundary dates x boundary times (+ every day of years 1 and 9999): from/to_naive_datetime, all calendars
   datetime-aware   x every whole-minute offset in +/-18 h (+/-1 s, +/-59 s): OffsetDateTime and Instant bridges
   timedelta        Duration <-> timedelta alphabet (range ends, +/-1 us around days), Offset <-> timedelta all 129 601 seconds
+  history          every stdlib->Pyoda route on sequences (A, B) and (A, B, A) of arguments that are == and hash-equal as stdlib values
+                   but not the same conversion (same instant at another offset, fold, subclass instance, equal timedelta, other
+                   calendar argument): each result must be the conversion of its own argument
   ambient          a slice of every part repeated in worker processes whose local time zone (TZ + time.tzset()) is JST-9 and
                    EST5EDT: conversions must not depend on the ambient zone of the process
 Every bridge is also called with its documented parameter names as keywords (same value as the positional call).
@@ -368,6 +371,28 @@ def check_aware(acc, ordinal, us, off, off_us=0):
                 ok, back = call(acc, o.to_aware_datetime, "C15/datetime-aware/odt-to/%s;%s" % (yc, ocls), case)
                 if ok and (back != a or back.utcoffset() != a.utcoffset() or back.replace(tzinfo=None) != a.replace(tzinfo=None)):
                     acc.violation("C15/datetime-aware/odt-roundtrip/%s;%s" % (yc, ocls), "from_aware_datetime(%s).to_aware_datetime() is %s" % (a, back), case)
+    else:
+        # sub-second utc offset: Offset has whole seconds; the fractional part is truncated toward zero (documented on
+        # Offset.from_timedelta), the local date/time is kept as it is
+        tot = off * 10 ** 6 + off_us
+        toff = M.tdiv(tot, 10 ** 6)
+        inr = M.OFF_MIN_S * 10 ** 6 <= tot <= M.OFF_MAX_S * 10 ** 6
+        okey = "C15/datetime-aware/odt-from/%s;%s,sub-second" % (yc, ocls)
+        ok, o = call(acc, lambda: OffsetDateTime.from_aware_datetime(a), okey, case, ok=inr)
+        if ok and not inr:
+            acc.violation("C15/datetime-aware/odt-from/no-raise/%s,sub-second" % ocls, "offset %d us is outside +/-18 h but from_aware_datetime(%s) returned %r" % (tot, a, o), case)
+        elif ok:
+            acc.outcome("odt-from:sub-second offset truncated toward zero")
+            loc = o.local_date_time
+            got = (day_of(loc.date), loc.nanosecond_of_day, o.offset.seconds, o.calendar.id)
+            if got != (n, us * 1000, toff, "ISO"):
+                acc.violation("C15/datetime-aware/odt-from/fields/%s;%s,sub-second" % (yc, ocls),
+                              "OffsetDateTime.from_aware_datetime(%s) is (day, ns, offset, cal) %r, exact (local kept, offset truncated toward zero) %r" % (
+                                  a, got, (n, us * 1000, toff, "ISO")), case)
+            else:
+                ok, back = call(acc, o.to_aware_datetime, "C15/datetime-aware/odt-to/%s;%s,sub-second" % (yc, ocls), case)
+                if ok and (back.utcoffset() != dt.timedelta(seconds=toff) or back.replace(tzinfo=None) != a.replace(tzinfo=None)):
+                    acc.violation("C15/datetime-aware/odt-roundtrip/%s;%s,sub-second" % (yc, ocls), "from_aware_datetime(%s).to_aware_datetime() is %s" % (a, back), case)
     # --- Instant bridge: exact instant = local - offset; back only when the UTC instant is inside 0001..9999
     inst_us = n * 86400 * 10 ** 6 + us - (off * 10 ** 6 + off_us)
     inst_ok = M.in_inst(inst_us * 1000)      # a local 9999-12-31 with a negative offset can lie beyond Instant's own range: must raise
@@ -396,6 +421,13 @@ def check_aware(acc, ordinal, us, off, off_us=0):
         acc.violation("C15/datetime-aware/instant-roundtrip/%s;%s" % (yc, ocls), "Instant.from_aware_datetime(%s).to_datetime_utc() is %s" % (a, back), case)
 
 
+# utc offsets with a sub-second part (legal since Python 3.7; negative ones are normalised to days=-1 by timedelta): +/-1 us,
+# +/-999999 us, mean-time like +/-00:19:32.13, next to +/-18 h, and beyond it
+SUBSECOND_OFFSETS = ((0, 1), (0, -1), (0, 999_999), (0, -999_999), (3600, 250_000), (-3600, -250_000), (3600, 500_000), (-3600, -999_999),
+                     (1172, 130_000), (-1172, -130_000), (59, 999_999), (-59, -999_999), (M.OFF_MAX_S - 1, 999_999), (M.OFF_MIN_S + 1, -999_999),
+                     (M.OFF_MAX_S, 1), (M.OFF_MIN_S, -1), (M.OFF_MAX_S, 0), (86399, 999_999), (-86399, -999_999))
+
+
 @worker
 def w_aware(job):
     ordinals, times, offs = job
@@ -419,7 +451,7 @@ def w_aware_misc(job):
         for us in times:
             for off in (M.OFF_MAX_S + 1, M.OFF_MAX_S + 60, -M.OFF_MAX_S - 1, 86399, -86399):
                 check_aware(acc, o, us, off)
-            for off, off_us in ((0, 1), (0, -1), (3600, 500_000), (-3600, -999_999), (M.OFF_MAX_S, 0), (59, 999_999)):
+            for off, off_us in SUBSECOND_OFFSETS:
                 check_aware(acc, o, us, off, off_us)
     # Pyoda -> stdlib for instants (sub-microsecond truncated toward the start of time; before 0001-01-01 must raise)
     epoch = Instant.from_unix_time_ticks(0)
@@ -590,6 +622,126 @@ def w_offset_td(job):
     return acc
 
 
+# ---------------------------------------------------------------------------------------------------- call history
+class _DT(dt.datetime):
+    pass
+
+
+class _D(dt.date):
+    pass
+
+
+class _T(dt.time):
+    pass
+
+
+class _TD(dt.timedelta):
+    pass
+
+
+def _obs_odt(o):
+    loc = o.local_date_time
+    return (day_of(loc.date), loc.nanosecond_of_day, o.offset.seconds, o.calendar.id)
+
+
+def _model_odt(a):
+    off = a.utcoffset()
+    return (a.toordinal() - ORD_EPOCH, us_of(a.timetz()) * 1000, off.days * 86400 + off.seconds, "ISO")
+
+
+def _inst_ns(i):
+    return (i - Instant.from_unix_time_ticks(0)).to_nanoseconds()
+
+
+def _model_inst(a):
+    off = a.utcoffset()
+    return ((a.toordinal() - ORD_EPOCH) * 86400 * 10 ** 6 + us_of(a.timetz()) - ((off.days * 86400 + off.seconds) * 10 ** 6 + off.microseconds)) * 1000
+
+
+def history_groups():
+    """route -> list of (relation, group); a group is a list of argument tuples that are pairwise == and hash-equal in the stdlib
+    sense (so anything keyed on the stdlib object confuses them) but denote different conversions or are distinct objects"""
+    out = {"odt-from-aware": [], "instant-from-aware": [], "from_naive_datetime": [], "from_date": [], "from_time": [],
+           "duration-from-timedelta": [], "offset-from-timedelta": []}
+    for base in (dt.datetime(1970, 1, 1, tzinfo=UTC), dt.datetime(2000, 2, 29, 23, 59, 59, 999_999, tzinfo=UTC), dt.datetime(1, 1, 2, 0, 0, 0, 1, tzinfo=UTC),
+                 dt.datetime(9999, 12, 30, 12, 0, tzinfo=UTC)):
+        g = []
+        for off in (0, 3600, -18000, 19800, 1, -1, M.OFF_MAX_S, M.OFF_MIN_S):
+            g.append((base.astimezone(dt.timezone(dt.timedelta(seconds=off))),))
+        a = g[1][0]
+        g.append((a.replace(fold=1),))
+        g.append((_DT(a.year, a.month, a.day, a.hour, a.minute, a.second, a.microsecond, tzinfo=a.tzinfo),))
+        out["odt-from-aware"].append(("same-instant-other-offset/fold/subclass", g))
+        out["instant-from-aware"].append(("same-instant-other-offset/fold/subclass", g))
+    for d in (dt.datetime(2000, 2, 29, 1, 30, 0, 5), dt.datetime(1, 1, 1), dt.datetime(9999, 12, 31, 23, 59, 59, 999_999)):
+        sub = _DT(d.year, d.month, d.day, d.hour, d.minute, d.second, d.microsecond)
+        g = [(d,), (d.replace(fold=1),), (sub,), (d, CalendarSystem.iso), (d, CalendarSystem.julian), (d.replace(fold=1), CalendarSystem.gregorian), (sub, CalendarSystem.coptic)]
+        out["from_naive_datetime"].append(("fold/subclass/calendar-argument", g))
+    for d in (dt.date(2000, 2, 29), dt.date(1, 1, 1), dt.date(9999, 12, 31)):
+        out["from_date"].append(("subclass/distinct-object", [(d,), (_D(d.year, d.month, d.day),), (dt.date.fromordinal(d.toordinal()),)]))
+    for t in (dt.time(0, 0), dt.time(2, 30, 0, 1), dt.time(23, 59, 59, 999_999)):
+        out["from_time"].append(("fold/subclass", [(t,), (t.replace(fold=1),), (_T(t.hour, t.minute, t.second, t.microsecond),)]))
+    for us in (0, 86400 * 10 ** 6, -1, 3_600_000_000, -64_800_000_000):
+        td = dt.timedelta(microseconds=us)
+        g = [(td,), (_TD(microseconds=us),), (dt.timedelta(days=td.days, seconds=td.seconds, microseconds=td.microseconds),), (dt.timedelta(milliseconds=us // 1000, microseconds=us % 1000),)]
+        out["duration-from-timedelta"].append(("equal-timedelta/subclass", g))
+        if us % 10 ** 6 == 0 and M.in_off(us // 10 ** 6):
+            out["offset-from-timedelta"].append(("equal-timedelta/subclass", g))
+    return out
+
+
+def _naive_model(d, cal=None):
+    return (d.toordinal() - ORD_EPOCH, us_of(d.time()) * 1000, (cal or CalendarSystem.iso).id)
+
+
+HISTORY_ROUTES = {
+    "odt-from-aware": (lambda a: OffsetDateTime.from_aware_datetime(a), _model_odt, _obs_odt),
+    "instant-from-aware": (lambda a: Instant.from_aware_datetime(a), _model_inst, _inst_ns),
+    "from_naive_datetime": (lambda *x: LocalDateTime.from_naive_datetime(*x), _naive_model, lambda l: (day_of(l.date), l.nanosecond_of_day, l.calendar.id)),
+    "from_date": (lambda d: LocalDate.from_date(d), lambda d: (d.toordinal() - ORD_EPOCH, "ISO"), lambda l: (day_of(l), l.calendar.id)),
+    "from_time": (lambda t: LocalTime.from_time(t), lambda t: us_of(t) * 1000, lambda l: l.nanosecond_of_day),
+    "duration-from-timedelta": (lambda td: Duration.from_timedelta(td), lambda td: ((td.days * 86400 + td.seconds) * 10 ** 6 + td.microseconds) * 1000, lambda d: d.to_nanoseconds()),
+    "offset-from-timedelta": (lambda td: Offset.from_timedelta(td), lambda td: td.days * 86400 + td.seconds, lambda o: o.seconds),
+}
+
+
+def check_history(acc, route, gi):
+    """every ordered pair (A, B) and triple (A, B, A) of one group through one route: each result must be the conversion of ITS
+    argument, whatever equal-looking argument was converted just before"""
+    fn, model, obs = HISTORY_ROUTES[route]
+    rel, group = history_groups()[route][gi]
+    for i, A in enumerate(group):
+        for j, B in enumerate(group):
+            if i == j:
+                continue
+            for seq in ((i, j), (i, j, i)):
+                acc.count(states=1, nontrivial=1)
+                for pos, k in enumerate(seq):
+                    args = group[k]
+                    case = {"kind": "history", "route": route, "group": gi, "seq": list(seq), "pos": pos}
+                    ok, r = call(acc, lambda: fn(*args), "C15/history/%s/%s" % (route, rel), case)
+                    if not ok:
+                        break
+                    got, exp = obs(r), model(*args)
+                    if got != exp:
+                        acc.violation("C15/history/%s/%s" % (route, rel),
+                                      "call %d of the sequence %s gives %r, the conversion of its own argument %s is %r (arguments of the sequence are equal as stdlib values: %s)" % (
+                                          pos + 1, [" ".join(str(x) for x in group[q]) for q in seq], got, " ".join(str(x) for x in args), exp, rel), case)
+                        break
+
+
+@worker
+def w_history(job):
+    route, gi = job
+    acc = Acc()
+    check_history(acc, route, gi)
+    acc.outcome("history:" + route)
+    if gi == 0:
+        rel, group = history_groups()[route][0]
+        acc.sample({"history_route": route, "relation": rel, "equal_arguments": [" ".join(str(x) for x in g) for g in group][:4]})
+    return acc
+
+
 # ---------------------------------------------------------------------------------------------------- ambient process state
 def _set_tz(tz):
     old = os.environ.get("TZ")
@@ -737,6 +889,11 @@ def run(ctx):
         span = M.OFF_MAX_S - M.OFF_MIN_S + 1
         for acc in pmap(w_offset_td, _rot([(M.OFF_MIN_S + a, M.OFF_MIN_S + min(span, a + 8192)) for a in range(0, span, 8192)], ctx.seed)):
             ctx.merge_part("timedelta", acc)
+    if _want(ctx, "history"):
+        groups = history_groups()
+        jobs = [(route, gi) for route in groups for gi in range(len(groups[route]))]
+        for acc in pmap(w_history, _rot(jobs, ctx.seed)):
+            ctx.merge_part("history", acc)
     if _want(ctx, "ambient"):
         a_ord = sorted({dt.date(*x).toordinal() for x in ((1, 1, 1), (1, 1, 2), (1969, 12, 31), (1970, 1, 1), (2000, 2, 29), (2024, 3, 10), (2024, 11, 3),
                                                         (9999, 12, 30), (9999, 12, 31))})
@@ -798,6 +955,8 @@ def replay(rec):
             check_odt_to_aware(acc, case["cal"], case["day"], case["t"], case["off"])
         elif k in ("timedelta", "duration-to"):
             acc.merge(w_timedelta(0))
+        elif k == "history":
+            check_history(acc, case["route"], case["group"])
         elif k == "offset-td":
             acc.merge(w_offset_td((case["s"], case["s"] + 1)))
         else:
